@@ -192,8 +192,8 @@ Definition tzif_parse (file : list byte) : tzres :=
 Definition be32 (x : Z) : list byte := be_encode 4 x.
 
 (* a data block with leapcnt = 0: six counts, transition times (w bytes each), transition
-   types, ttinfo entries (isdst and abbrind: [dst], 0), abbreviation characters, then the
-   standard/wall and UT/local indicators *)
+   types, ttinfo entries (isdst and abbrind both 0 here; [encode_block_g] below writes any
+   bytes there), abbreviation characters, then the standard/wall and UT/local indicators *)
 Definition encode_block (w : nat) (tb : tzdata) (abbr isstd isut : list byte) : list byte :=
   be32 (Z.of_nat (length isut)) ++ be32 (Z.of_nat (length isstd)) ++ be32 0 ++
   be32 (Z.of_nat (length (trans tb))) ++ be32 (Z.of_nat (length (offs tb))) ++ be32 (Z.of_nat (length abbr)) ++
@@ -213,3 +213,29 @@ Definition encode_v2 (tb1 : tzdata) (abbr1 isstd1 isut1 : list byte)
                      (tb : tzdata) (abbr isstd isut footer : list byte) : list byte :=
   header x32 ++ encode_block 4 tb1 abbr1 isstd1 isut1 ++
   header x32 ++ encode_block 8 tb abbr isstd isut ++ footer.
+
+(* ---- the general writer: every ttinfo entry carries its own isdst byte and abbreviation
+   (designation) index byte, [tts] = one pair (isdst, desigidx) per local time type, in the order
+   of [offs tb]; any bytes -- the reader stores them and the conversions never look at them.
+   [encode_block] / [encode_v1] / [encode_v2] above are the special case of all-zero pairs
+   ([tts_zero], C20_TzifProofs.encode_block_zero). *)
+Definition ttinfo_bytes (ot : Z * (byte * byte)) : list byte :=
+  be32 (fst ot) ++ [fst (snd ot); snd (snd ot)].
+
+Definition encode_block_g (w : nat) (tb : tzdata) (tts : list (byte * byte)) (abbr isstd isut : list byte) : list byte :=
+  be32 (Z.of_nat (length isut)) ++ be32 (Z.of_nat (length isstd)) ++ be32 0 ++
+  be32 (Z.of_nat (length (trans tb))) ++ be32 (Z.of_nat (length (offs tb))) ++ be32 (Z.of_nat (length abbr)) ++
+  concat (map (fun tr => be_encode w (tutc tr)) (trans tb)) ++
+  map (fun tr => byte_of_Z (Z.of_nat (tidx tr))) (trans tb) ++
+  concat (map ttinfo_bytes (combine (offs tb) tts)) ++
+  abbr ++ isstd ++ isut.
+
+Definition encode_v1_g (version : byte) (tb : tzdata) (tts : list (byte * byte)) (abbr isstd isut tail : list byte) : list byte :=
+  header version ++ encode_block_g 4 tb tts abbr isstd isut ++ tail.
+
+Definition encode_v2_g (tb1 : tzdata) (tts1 : list (byte * byte)) (abbr1 isstd1 isut1 : list byte)
+                       (tb : tzdata) (tts : list (byte * byte)) (abbr isstd isut footer : list byte) : list byte :=
+  header x32 ++ encode_block_g 4 tb1 tts1 abbr1 isstd1 isut1 ++
+  header x32 ++ encode_block_g 8 tb tts abbr isstd isut ++ footer.
+
+Definition tts_zero (tb : tzdata) : list (byte * byte) := repeat (x00, x00) (length (offs tb)).
